@@ -1,0 +1,22 @@
+//go:build verif
+
+package s2
+
+// Thin wrappers exporting unexported pieces of loop.go to the verification harness
+// (property C18: area, curvature, centroid). Add-only; no behaviour of the package changes.
+
+// VerifC18TurningAngleMaxError returns l.turningAngleMaxError().
+func VerifC18TurningAngleMaxError(l *Loop) float64 { return l.turningAngleMaxError() }
+
+// VerifC18SurfaceIntegralFloat64 runs l.surfaceIntegralFloat64 with the given triangle function.
+func VerifC18SurfaceIntegralFloat64(l *Loop, f func(a, b, c Point) float64) float64 {
+	return l.surfaceIntegralFloat64(f)
+}
+
+// VerifC18SurfaceIntegralPoint runs l.surfaceIntegralPoint with the given triangle function.
+func VerifC18SurfaceIntegralPoint(l *Loop, f func(a, b, c Point) Point) Point {
+	return l.surfaceIntegralPoint(f)
+}
+
+// VerifC18Depth returns the nesting depth of the loop within its polygon.
+func VerifC18Depth(l *Loop) int { return l.depth }
